@@ -294,8 +294,10 @@ WORKBOOKS = {
     # by the rectangle it reads; the code's own nodes differ: spec drift)
     'refops': dict(
         inputs={'A1': 1, 'B1': 3, 'B2': 4},
-        formulas={'C1': ('SumR', 'B1:B2'), 'D1': ('Plus', ['C1'], 1)},
-        texts={'C1': '=SUM(A1:B2 B1:B2)'},
+        formulas={'C1': ('SumR', 'B1:B2'), 'D1': ('Plus', ['C1'], 1),
+                  'E1': ('SumR', 'B1:B2')},
+        # (E1: the range operator between two written references, D132)
+        texts={'C1': '=SUM(A1:B2 B1:B2)', 'E1': '=SUM(B1:(B2))'},
         ranges={'B1:B2': [['B1'], ['B2']]}),
     # C01: a range of more than 10 000 cells (the model knows the two cells
     # which hold something; every other cell of the rectangle is blank)
